@@ -129,7 +129,8 @@ BOUNDED = {
 
 _NOTE = ("Safety content proved for all queue states, queue contents and lengths, future ids and thread counts; thread interleavings are "
          "over-approximated by the rely condition at every lock() (A1, A10), not enumerated. Trusted: the shims for std/futures (A5, A6), the "
-         "statement rewrites listed in trusted_base (A7, A12), Verus/z3 (A3). ")
+         "statement rewrites listed in trusted_base (A7, A12), the 27 functions outside every contract whose assumed behaviour is stated in specs/table.py PINNED "
+         "and whose text is fingerprinted (S-pin, A13: thread/channel/raw-pointer code, constructors, forwarders), Verus/z3 (A3). ")
 _LIVE = "The liveness half ('eventually runs / returns / is woken') is NOT proved; it is reduced to the safety obligations P1-P4 of DESIGN.md 3.6 (A11). "
 
 
